@@ -209,6 +209,21 @@ PROPS = {
         "technique": "Lean 4 proof (case analysis over generated tables and typed encoders) + independent Lean CDDL validator on real emissions",
         "assumptions": ["CDDL as recalled (DESIGN.md Appendix A)"],
     },
+    "C19": {
+        "rule": "JSON records for both namespaces through the real FromJson::from_json + ToNamespaceMap::to_ns_map (JSON travels to the Lean side as CBOR): the full record, every optional field absent alone / null alone, mandatory-only, random subsets of the optional fields, every mandatory field missing / null, every field with nine wrong JSON types, unknown entries, non-object records; "
+                "EVERY code of EVERY table (regenerated literal lists: 249 alpha-2, 181 UN signs, colours, sex, suffixes, truncation, race, weight range, EDL, DHS, vehicle categories) in every field that uses it, with near misses (case variants, blanks, suffixes, Kelvin sign / dotless i look-alikes, neighbouring integers) and integer sweeps; Latin-1 boundary strings (150 / 151 characters in 1- and 2-byte characters, range edges, control characters, non-Latin-1); full dates (leap years, year padding, signs, bad months / days, blanks, full-width digits); "
+                "date-times (offsets, fractions, separators, leap seconds where they can and cannot occur, range edges that leave years 0000..9999 in UTC, random well-formed values around month / year ends); base64 (padding variants, URL alphabet, non-canonical trailing bits, random bytes); u32 boundaries; all hundred age_over_NN keys one by one and together, near-miss keys, non-boolean values; biometric_template_* keys; issuing_jurisdiction against issuing_country; privilege structures; random mixes. Distinct by record bytes",
+        "xlate_items": ["namespaces"],
+        "trusted_base": ["rust/xlate/src/schema.rs: syntactic extraction of the namespace structs (field names after rename, types, Option, many / dynamic_parse), newtypes, enums and of every single-`match` method as a (pattern, result) table, including the scrutinee text (to_lowercase etc.)",
+                         "Model/Namespaces.lean: hand-written interpreter of those schemas (the derive macros' semantics) and leaf semantics (Latin-1, full-date and RFC 3339 parsing as the `time` crate does it, base64 0.13 padding rules, u32, county code, dynamic fields) - tied by correspondence only",
+                         "Spec/Namespaces.lean: the two data models restated by hand from ISO/IEC 18013-5 Table 5 and the AAMVA guidelines (identifiers, types, mandatory/optional); the two large code lists (ISO 3166-1 alpha-2, UN signs) are not restated independently",
+                         "Unicode case mapping is modelled for ASCII plus the two code points that map into ASCII (KELVIN SIGN, dotted capital I); serde_json's number representation (as_u64)"],
+        "level_text": "Lean theorems: the source's data models (re-extracted every run) are ISO 18013-5 Table 5 / the AAMVA model - identifiers, order, mandatory/optional, types (kernel-decided); EVERY code table of both namespaces maps each code back to itself in both directions (kernel-decided over all ~500 entries); for ANY schema and ANY record the accepted output has exactly the identifiers of the supplied non-null plain fields plus one per age_over_DD / biometric_template_* entry (+ issuing_jurisdiction), each once, nothing else; a missing or null mandatory field and a value its type rejects each reject the whole record; "
+                      "full dates come out as tag 1004 around exactly the supplied text (parse/print inverse proved), date-times as tag 0 around a 20-character UTC text, Latin-1 accepted iff at most 150 characters all in range and emitted unchanged, u32 / bytes / wrong JSON types as stated. The declarative Spec (hand-written standard tables, date-times compared as instants by independent civil-date arithmetic, base64 by re-encoding) is evaluated on the REAL output of every generated record.",
+        "level_note": "Trusted: Lean kernel; the interpreter = the derive macros and leaf impls is established by correspondence, not by translating the macros; model and Spec are shown equal only on the generated records, not for all inputs (both are evaluated against the real library on every case).",
+        "technique": "Lean 4 proof (kernel-decided table and schema theorems over regenerated data, induction over field lists, digit arithmetic) + schema/table translator + correspondence and declarative Spec on the real output",
+        "assumptions": [],
+    },
     "C20": {
         "rule": "requested ages 0..99 x every absent/true/false assignment over a fixed age universe (exhaustive), "
                 "random larger honest/dishonest claim sets, and out-of-domain spellings (+NN, 0NN, non-boolean values, "
